@@ -3681,6 +3681,10 @@ def solve(m: types.Model, d: types.Data):
   if d.njmax == 0 or m.nv == 0:
     wp.copy(d.qacc, d.qacc_smooth)
     d.solver_niter.fill_(0)
+    if m.nv:
+      # no constraint rows can exist: zero constraint force, and efc.Ma = M @ qacc for the integrators
+      d.qfrc_constraint.zero_()
+      support.mul_m(m, d, d.efc.Ma, d.qacc)
   else:
     ctx = _create_solver_context(m, d)
     _solve(m, d, ctx)
